@@ -165,6 +165,9 @@ class GraphGroup(Group):
     factories = (
         [(f'tof.elastic({s})', (lambda s=s: gt.elastic(s))) for s in ('tof', 'wavelength', 'energy', 'Q')]
         + [(f'tof.{n}(tof)', (lambda n=n: getattr(gt, n)('tof'))) for n in ('kinematic', 'elastic_dspacing', 'elastic_energy', 'elastic_Q', 'elastic_Q_vec', 'elastic_hkl', 'elastic_wavelength', 'direct_inelastic', 'indirect_inelastic')]
+        + [(f'tof.{n}({st})', (lambda n=n, st=st: getattr(gt, n)(st))) for n, st in (
+            ('elastic_dspacing', 'wavelength'), ('elastic_dspacing', 'energy'), ('elastic_energy', 'wavelength'), ('elastic_Q', 'wavelength'),
+            ('elastic_Q_vec', 'wavelength'), ('elastic_hkl', 'wavelength'), ('elastic_wavelength', 'energy'), ('elastic_wavelength', 'Q'))]
         + [('beamline.beamline(True)', lambda: gb.beamline(scatter=True)), ('beamline.beamline(False)', lambda: gb.beamline(scatter=False))]
         + [(f'beamline.{n}()', (lambda n=n: getattr(gb, n)())) for n in ('incident_beam', 'scattered_beam', 'two_theta', 'L1', 'L2')]
         + [('beamline.Ltotal(True)', lambda: gb.Ltotal(scatter=True)), ('beamline.Ltotal(False)', lambda: gb.Ltotal(scatter=False))]
